@@ -46,7 +46,8 @@ type tlTask struct {
 	r     *tlRun
 	block chan struct{} // nil = return at once
 	work  time.Duration
-	pv    any // panic value, nil = none
+	pv    any  // panic value, nil = none
+	exit  bool // end the worker goroutine with runtime.Goexit (what t.FailNow does inside a task)
 }
 
 func (t *tlTask) Start() {
@@ -73,6 +74,9 @@ func (t *tlTask) Start() {
 		time.Sleep(t.work)
 	} else {
 		runtime.Gosched()
+	}
+	if t.exit {
+		runtime.Goexit()
 	}
 	if t.pv != nil {
 		t.r.mu.Lock()
@@ -276,6 +280,21 @@ func tlStress(s *Stream, rng *Rng, withCancel bool, statusFocus bool) {
 	stopPoll := make(chan struct{})
 	var pollWg sync.WaitGroup
 	var boundViol atomic.Int64
+	pollWg.Add(1)
+	go func() { // a second, simple poller: two goroutines inside Status() at once
+		defer pollWg.Done()
+		for {
+			select {
+			case <-stopPoll:
+				return
+			default:
+			}
+			if st := tl.Status(); st.PendingTask < 0 || st.PendingTask > L*(Q+1) {
+				boundViol.Store(int64(st.PendingTask) + 1)
+			}
+			runtime.Gosched()
+		}
+	}()
 	pollWg.Add(1)
 	go func() {
 		defer pollWg.Done()
@@ -486,6 +505,8 @@ func tlExactPending(s *Stream, rng *Rng, L, Q int) {
 			}
 		}
 	}
+	first := tl.Status() // must stay what it was: a later Status() call may not rewrite an earlier result
+	firstPending, firstPanic := first.PendingTask, first.LastPanic
 	sc.NTasks = k
 	sc.Detail = fmt.Sprintf("all %d workers pinned, %d tasks accepted and not started", L, k)
 	if !waitUntil(2*time.Second, func() bool { return tl.Status().PendingTask == k }) {
@@ -500,11 +521,13 @@ func tlExactPending(s *Stream, rng *Rng, L, Q int) {
 			time.Sleep(100 * time.Microsecond)
 		}
 	}
-	// one more push per full lane must time out, not be dropped or started
 	close(release)
 	waitUntil(tlDeadline, func() bool { _, fin, _, _ := r.snapshot(); return fin == k+L })
 	if !waitUntil(2*time.Second, func() bool { return tl.Status().PendingTask == 0 }) {
 		s.Violate("pending-not-exact", fmt.Sprintf("everything finished but PendingTask=%d", tl.Status().PendingTask), sc)
+	}
+	if first.PendingTask != firstPending || fmt.Sprint(first.LastPanic) != fmt.Sprint(firstPanic) {
+		s.Violate("status-snapshot-changed", fmt.Sprintf("a LaneStatus returned earlier changed from PendingTask=%d to %d after later Status() calls", firstPending, first.PendingTask), sc)
 	}
 	cancel()
 	tlFinalChecks(s, sc, tl, r, pushes, ctx)
@@ -745,6 +768,61 @@ func tlWaitEarly(s *Stream, L, Q int, oneP bool) {
 	s.Nontrivial(fmt.Sprintf("wait-early/%d/%d/%v", L, Q, oneP))
 }
 
+// ---- scenario: odd lifetimes (C07) -----------------------------------------------------------------
+
+// tlOddLifetimes: (a) a lane built on an already cancelled / expired context: PushTask returns the
+// context error, nothing starts, Wait returns; (b) PushTask on the same goroutine right after
+// cancel() returned must already see the cancellation; (c) a task that ends its goroutine with
+// runtime.Goexit (t.FailNow inside a task): after cancel Wait still returns (wg.Done is deferred).
+func tlOddLifetimes(s *Stream, rng *Rng, L, Q int) {
+	// (a)
+	{
+		sc := tlScenario{Kind: "dead-context", L: L, Q: Q}
+		ctx, cancel := context.WithCancel(context.Background())
+		cancel()
+		tl := tasklane.New(ctx, L, Q)
+		r := newTLRun()
+		tlFinalChecks(s, sc, tl, r, nil, ctx)
+		s.Evaluations++
+		s.Nontrivial(fmt.Sprintf("dead-context/%d/%d", L, Q))
+	}
+	// (b)
+	for rep := 0; rep < 20 && !tlEnough(s); rep++ {
+		sc := tlScenario{Kind: "push-right-after-cancel", L: L, Q: Q}
+		ctx, cancel := context.WithCancel(context.Background())
+		tl := tasklane.New(ctx, L, Q)
+		tl.SetTimeout(tlDeadline)
+		r := newTLRun()
+		if rep%2 == 0 {
+			runtime.Gosched()
+		}
+		cancel()
+		t := &tlTask{id: 1, r: r}
+		err := tl.PushTask(t, rng.Intn(L))
+		if err == nil || !errors.Is(err, context.Canceled) {
+			s.Violate("push-after-cancel", fmt.Sprintf("PushTask called right after cancel() returned gave %v, want %v", err, context.Canceled), sc)
+		}
+		tlFinalChecks(s, sc, tl, r, []tlPush{{1, 0, err}}, ctx)
+		s.Evaluations++
+	}
+	s.Nontrivial(fmt.Sprintf("push-right-after-cancel/%d/%d", L, Q))
+	// (c)
+	{
+		sc := tlScenario{Kind: "goexit-task", L: L, Q: Q}
+		ctx, cancel := context.WithCancel(context.Background())
+		tl := tasklane.New(ctx, L, Q)
+		tl.SetTimeout(tlDeadline)
+		r := newTLRun()
+		t := &tlTask{id: 1, r: r, exit: true}
+		err := tl.PushTask(t, 0)
+		waitUntil(tlDeadline, func() bool { _, fin, _, _ := r.snapshot(); return fin == 1 })
+		cancel()
+		tlFinalChecks(s, sc, tl, r, []tlPush{{1, 0, err}}, ctx)
+		s.Evaluations++
+		s.Nontrivial(fmt.Sprintf("goexit-task/%d/%d", L, Q))
+	}
+}
+
 // ---- driver -----------------------------------------------------------------------------------------
 
 // tlEnough: once a few violations are recorded there is no point in running the remaining
@@ -816,6 +894,14 @@ func runTL(cfg Cfg, name string) {
 					break
 				}
 				tlWaitEarly(s, L, rep%3, rep%2 == 0)
+			}
+		}
+		for L := 1; L <= maxL; L++ {
+			for Q := 0; Q <= maxQ; Q++ {
+				if tlEnough(s) {
+					break
+				}
+				tlOddLifetimes(s, rng.Fork(), L, Q)
 			}
 		}
 		for rep := 0; rep < cfg.N(1, 6); rep++ {
